@@ -318,8 +318,15 @@ func genFrameBytes(t *rapid.T) []byte {
 		if rapid.Bool().Draw(t, "padok") {
 			p = append(p, make([]byte, pad)...)
 		}
-	case 4: // zero increment / zero values
-		p = make([]byte, rapid.SampledFrom([]int{4, 5, 8, 6}).Draw(t, "zl"))
+	case 4: // zero increment / zero values, reserved bits: 32-bit words from a boundary set
+		words := rapid.SampledFrom([]int{1, 2}).Draw(t, "nwords")
+		for i := 0; i < words; i++ {
+			w := rapid.SampledFrom([]uint32{0, 0, 0x80000000, 0x80000001, 1, 0x7fffffff, 0xffffffff}).Draw(t, "word")
+			p = append(p, byte(w>>24), byte(w>>16), byte(w>>8), byte(w))
+		}
+		if rapid.IntRange(0, 3).Draw(t, "extra") == 0 {
+			p = append(p, rapid.Byte().Draw(t, "xb"))
+		}
 	default:
 		p = rapid.SliceOfN(rapid.Byte(), 0, 40).Draw(t, "any")
 	}
